@@ -12,13 +12,15 @@ use serde_json::{json, Value};
 pub const SPEC: PropSpec = PropSpec {
     id: "C16",
     level: "exploration",
-    rule: "Cases = (input bytes, configuration c). The real reader is run twice, under the neutral configuration (slice source) and under c (slice source, and for a quarter of the non-enumerated cases also a buffered source delivering 1-byte or random pieces), and the second trace must equal T_c(first trace): Empty -> Start+End of the same name, Text trimmed at the configured sides and dropped when it becomes empty, End names trimmed, DoubleHyphenInComment error for comments whose body contains '--' or ends in '-', name-check errors according to an open-element stack replayed over the neutral trace; the position after every source construct and every syntax error must be unchanged. Exhaustive: every byte string up to length N over the 13 markup bytes x all 128 configurations; atom sequences, pool, grammar documents, mutants, truncations, corpus x 16 random configurations. Non-trivial = input contains '<' and c is not neutral.",
+    rule: "Every configured run is preceded by a probe: the configured reader reads the input once more, calling read_to_end on the first start tag, and after every call the reader's configuration must still be what the caller set. Cases = (input bytes, configuration c). The real reader is run twice, under the neutral configuration (slice source) and under c (slice source, and for a quarter of the non-enumerated cases also a buffered source delivering 1-byte or random pieces), and the second trace must equal T_c(first trace): Empty -> Start+End of the same name, Text trimmed at the configured sides and dropped when it becomes empty, End names trimmed, DoubleHyphenInComment error for comments whose body contains '--' or ends in '-', name-check errors according to an open-element stack replayed over the neutral trace; the position after every source construct and every syntax error must be unchanged. Exhaustive: every byte string up to length N over the 13 markup bytes x all 128 configurations; atom sequences, pool, grammar documents, mutants, truncations, corpus x 16 random configurations. Non-trivial = input contains '<' and c is not neutral.",
     assumptions: &[
         "the neutral trace itself is judged by C01; here it is only the baseline",
         "strings inside name-mismatch errors are compared only for inputs that cannot switch the decoder away from UTF-8",
         "the offset reported inside a DoubleHyphenInComment error is not compared",
     ],
     required: &[
+        "config_probe.read_to_end_ok",
+        "config_probe.read_to_end_err",
         "configs_seen_all128",
         "texts_dropped",
         "texts_trimmed_start",
@@ -51,6 +53,8 @@ pub struct Local {
     ws_at_eof: u64,
     f6_hits: u64,
     buffered: u64,
+    probe_skips_ok: u64,
+    probe_skips_err: u64,
 }
 impl Local {
     fn new() -> Self {
@@ -67,6 +71,8 @@ impl Local {
             ws_at_eof: 0,
             f6_hits: 0,
             buffered: 0,
+            probe_skips_ok: 0,
+            probe_skips_err: 0,
         }
     }
 }
@@ -230,7 +236,49 @@ fn same_obs(a: &Obs, b: &Obs, strings: bool) -> bool {
 
 /// Err(detail) on a discrepancy; Ok(number of F6-signature hits) otherwise.
 fn check(input: &[u8], c: u8, known_f6: bool, loc: &mut Local) -> Result<u64, String> {
+    config_probe(input, c, loc)?;
     check_src(input, c, known_f6, None, loc)
+}
+
+/// The options in force are the ones the caller set: no read call -- read_event, or read_to_end on
+/// the first start tag, whether it succeeds or fails -- leaves a switch in another position.
+fn config_probe(input: &[u8], c: u8, loc: &mut Local) -> Result<(), String> {
+    use quick_xml::events::Event;
+    use quick_xml::name::QName;
+    use quick_xml::reader::Reader;
+    if !input.contains(&b'<') {
+        return Ok(());
+    }
+    let mut r = Reader::from_reader(input);
+    apply_cfg(r.config_mut(), c);
+    let mut skipped = false;
+    for call in 0..call_bound(input.len()) + 2 {
+        let mut what = "read_event";
+        let done = match r.read_event() {
+            Ok(Event::Start(e)) if !skipped => {
+                skipped = true;
+                what = "read_to_end after the first start tag";
+                let name = e.name().into_inner().to_vec();
+                match r.read_to_end(QName(&name)) {
+                    Ok(_) => loc.probe_skips_ok += 1,
+                    Err(_) => loc.probe_skips_err += 1,
+                }
+                false
+            }
+            Ok(Event::Eof) => true,
+            Ok(_) => false,
+            Err(quick_xml::Error::IllFormed(_)) => false,
+            Err(_) => true,
+        };
+        let now = cfg_bits(r.config());
+        if now != c {
+            return Err(format!("config {}: after call {} ({}) the reader's configuration is {}", cfg_show(c), call, what, cfg_show(now)));
+        }
+        if done {
+            break;
+        }
+    }
+    Ok(())
 }
 
 /// `cuts` = Some(..): the configured run reads from a buffered source that delivers these pieces
@@ -485,6 +533,8 @@ fn run(ctx: &mut Ctx) {
     ctx.add("ws_only_text_at_eof", loc.ws_at_eof);
     ctx.add("F6_signature_hits", loc.f6_hits);
     ctx.add("buffered_source_runs", loc.buffered);
+    ctx.add("config_probe.read_to_end_ok", loc.probe_skips_ok);
+    ctx.add("config_probe.read_to_end_err", loc.probe_skips_err);
 }
 
 fn replay(case: &Value, ctx: &mut Ctx) -> Option<String> {
